@@ -277,7 +277,7 @@ func (e *CrashEnv) Apply(op COp) {
 		}
 		rec.outcome = deleteOutcome(segs, del)
 		e.St.Inc("workload.delete." + rec.outcome)
-	case "reopen", "reopen-recover", "reopen-migrate", "rmindex-reopen":
+	case "reopen", "reopen-recover", "reopen-migrate", "rmindex-reopen", "reopen-switch":
 		e.must("Close", e.L.Close())
 		e.L = nil
 		e.ack = e.M.Next
@@ -300,10 +300,24 @@ func (e *CrashEnv) Apply(op COp) {
 			o = e.C.options(e.CurV1)
 			o.Version.EagerVersionMigrate = true
 		}
+		if op.Kind == "reopen-switch" {
+			// the other NewSegmentsVersion WITHOUT migrating: segments of both versions from here on, and
+			// index files rebuilt or rewritten from now on use the other container than their log
+			e.CurV1 = op.ToV1
+			o = e.C.options(e.CurV1)
+			for _, n := range op.RmIdx {
+				e.capture = false
+				_ = os.Remove(filepath.Join(e.Dir, n))
+				delete(e.synced, n)
+				e.last = snapshotDir(e.Dir)
+				rec.preDir = e.last
+				e.capture = true
+			}
+		}
 		l, err := klevdb.Open(e.Dir, o)
 		e.must("Open", err)
 		e.L = l
-		if op.Kind == "rmindex-reopen" {
+		if op.Kind == "rmindex-reopen" || (op.Kind == "reopen-switch" && len(op.RmIdx) > 0) {
 			// first reads rebuild the removed index files lazily
 			e.scanAll("after index removal")
 		}
@@ -653,7 +667,7 @@ type knownSkip struct{}
 func (e *CrashEnv) CurVAt(opi int) bool {
 	v1 := e.C.V1
 	for i := 1; i <= opi && i < len(e.Ops); i++ {
-		if e.Ops[i].op.Kind == "reopen-migrate" {
+		if e.Ops[i].op.Kind == "reopen-migrate" || e.Ops[i].op.Kind == "reopen-switch" {
 			v1 = e.Ops[i].op.ToV1
 		}
 	}
